@@ -16,6 +16,10 @@ use vcore::{vensure, CaseResult, CaseStats, Ctx, SplitMix, Violation};
 struct Spec {
     /// per-thread: (number of node creations, script seed, yield-every (0 = never), spin iterations before start)
     threads: Vec<(u32, u32, u16, u16)>,
+    /// thread churn: while threads[0] keeps creating nodes, this many short-lived threads (each creating
+    /// `short_n` nodes) are spawned and joined one batch after the other
+    #[serde(default)]
+    churn: Option<(u32, u16)>,
 }
 
 #[derive(Serialize, Deserialize, Default)]
@@ -38,13 +42,24 @@ const CAP: usize = 1024;
 /// One thread's script: create nodes (recording their priorities), insert them, keep the treap bounded,
 /// compare with a Vec model throughout.
 fn script(n: u32, seed: u32, yield_every: u16, t0: Instant) -> ThreadOut {
+    script_until(n, seed, yield_every, t0, None)
+}
+
+/// like `script`, but with a stop flag: runs at least `n` creations and then until the flag is set (at most 3*10^6)
+fn script_until(n: u32, seed: u32, yield_every: u16, t0: Instant, stop: Option<Arc<AtomicBool>>) -> ThreadOut {
     let mut out = ThreadOut::default();
     out.prios.reserve(n as usize);
     let mut rng = SplitMix(seed as u64 * 0x9E37 + 1);
     let mut t: Treap<Lt> = Treap::new();
     let mut m: Vec<u32> = Vec::new();
     let mut err = None;
-    for i in 0..n {
+    let limit = if stop.is_some() { 3_000_000 } else { n };
+    for i in 0..limit {
+        if let Some(f) = &stop {
+            if i >= n && f.load(Ordering::Acquire) {
+                break;
+            }
+        }
         if yield_every != 0 && i % yield_every as u32 == 0 {
             std::thread::yield_now();
         }
@@ -134,6 +149,26 @@ fn child(mode: &str, spec: &Spec) -> ChildOut {
                 outs.push(std::thread::spawn(move || script(n, seed, 0, t0)).join().unwrap());
             }
             ChildOut { threads: outs }
+        }
+        "churn" => {
+            let (count, short_n) = spec.churn.unwrap_or((4200, 2));
+            let stop = Arc::new(AtomicBool::new(false));
+            let (n, seed, ye, _) = spec.threads[0];
+            let st = stop.clone();
+            let worker = std::thread::spawn(move || script_until(n, seed, ye, t0, Some(st)));
+            let mut outs: Vec<ThreadOut> = Vec::new();
+            let mut k = 0u32;
+            while k < count {
+                let batch: Vec<_> = (0..32.min(count - k)).map(|j| std::thread::spawn(move || script(short_n as u32, 1000 + k + j, 0, t0))).collect();
+                k += batch.len() as u32;
+                for h in batch {
+                    outs.push(h.join().unwrap());
+                }
+            }
+            stop.store(true, Ordering::Release);
+            let mut all = vec![worker.join().unwrap()];
+            all.extend(outs);
+            ChildOut { threads: all }
         }
         _ => {
             let go = Arc::new(AtomicBool::new(false));
@@ -292,7 +327,7 @@ fn spec_strategy(max_threads: usize, lo: u32, hi: u32) -> impl Strategy<Value = 
         (lo..hi, any::<u32>(), prop_oneof![Just(0u16), 1u16..64, 64u16..2048], prop_oneof![Just(0u16), any::<u16>()]),
         2..=max_threads,
     )
-    .prop_map(|threads| Spec { threads })
+    .prop_map(|threads| Spec { threads, churn: None })
 }
 
 fn main() {
@@ -320,7 +355,7 @@ fn main() {
     // reference streams
     let tsan = std::env::var("VERIF_PROFILE").as_deref() == Ok("tsan");
     let kmax: u32 = if tsan { 60_000 } else { ctx.n(450_000, 1_700_000) as u32 };
-    let ref_spec = Spec { threads: vec![(kmax, 7, 0, 0)] };
+    let ref_spec = Spec { threads: vec![(kmax, 7, 0, 0)], churn: None };
     let s_proc = match run_child("solo-main", &ref_spec) {
         Ok(o) => o.threads.into_iter().next().unwrap().prios,
         Err(e) => {
@@ -336,7 +371,7 @@ fn main() {
         }
     };
     // which design? token passing: two threads, one after the other
-    let seq_spec = Spec { threads: vec![(1000, 1, 0, 0), (1000, 2, 0, 0)] };
+    let seq_spec = Spec { threads: vec![(1000, 1, 0, 0), (1000, 2, 0, 0)], churn: None };
     let shape_kind = match run_child("sequential", &seq_spec) {
         Ok(o) => {
             let (a, b) = (&o.threads[0].prios, &o.threads[1].prios);
@@ -359,7 +394,7 @@ fn main() {
     let sp = s_proc.clone();
     let stt = s_thr.clone();
     let runner = move |spec: &Spec| -> CaseResult {
-        let out = run_child("concurrent", spec).map_err(|e| if e.starts_with("TSAN ") { Violation::new("tsan/data-race", e) } else { Violation::new("child-crash", e) })?;
+        let out = run_child(if spec.churn.is_some() { "churn" } else { "concurrent" }, spec).map_err(|e| if e.starts_with("TSAN ") { Violation::new("tsan/data-race", e) } else { Violation::new("child-crash", e) })?;
         judge(spec, &out, shape_kind, &sp, &stt)
     };
     {
@@ -385,6 +420,11 @@ fn main() {
     }
     let max_threads = 8;
     ctx.prop_cfg("workloads", "c17-workload", ctx.n(24, 200), 12, spec_strategy(max_threads, 20_000, 55_000), &runner);
+    // thread churn: one long-lived worker while thousands of short-lived threads come and go (thread identifiers
+    // and thread-local slots get recycled; state keyed by them must not be shared with a live thread)
+    let churn = (20_000u32..60_000, any::<u32>(), prop_oneof![Just(0u16), 1u16..512], 4_200u32..9_000, 1u16..4)
+        .prop_map(|(n, seed, ye, count, short_n)| Spec { threads: vec![(n, seed, ye, 0)], churn: Some((count, short_n)) });
+    ctx.prop_cfg("thread-churn", "c17-workload", ctx.n(3, 30), 4, churn, &runner);
     ctx.prop_cfg("long-workloads", "c17-workload", ctx.n(4, 40), 6, spec_strategy(8, 100_000, 200_000), &runner);
     ctx.finish();
 }
